@@ -9,7 +9,7 @@ def tu_check(tu):
 
 def run(tier="quick", seed=0, use_cache=True):
     res = engine.Result("C18")
-    res.rules = ["CHECK-INVENTORY", "CHECK-AGREE", "COMPLAIN-DISC", "RANGE-PROP"]
+    res.rules = ["CHECK-INVENTORY", "CHECK-AGREE", "COMPLAIN-DISC", "RANGE-PROP", "CHECK-TABLES", "CHECK-TRANSPARENT"]
     res.explanation = (
         "Inventory of what the checkers assert, decided from source: every "
         "CHECK(...) of BTree_check_inner (each of the 22 translation units) "
@@ -24,10 +24,10 @@ def run(tier="quick", seed=0, use_cache=True):
         "order) are made for every key and reach complain -> errors -> "
         "AssertionError; the key range handed to child i is extracted as a "
         "decision table over (i > 0, i < n-1) and must be lo' = keys[i-1] "
-        "or the inherited lo, hi' = keys[i] or the inherited hi. That every "
+        "or the inherited lo, hi' = keys[i] or the inherited hi. CHECK-TABLES: the two dispatch tables of check.py are evaluated from the module-level loops that build them (partial evaluation with classes as symbols) and compared, for the 22 families and both implementations, with kind/mapping-ness per container type and leaf type per tree type. CHECK-TRANSPARENT: no function of check.py applies a de-duplicating or re-ordering operation (dict, set, sorted, .sort ...) to what it takes from a state, so duplicates and misorder reach check_sorted. That every "
         "valid tree is accepted, and that each concrete corruption is "
         "caught by the combination of the two tools, is not decided.")
-    res.assumptions = ["crack_btree / crack_bucket expose keys and kids faithfully (state cracking is not analysed)"]
+    res.assumptions = ["crack_btree / crack_bucket split the state by position as documented (only the absence of de-duplicating / re-ordering operations is checked)"]
     out = engine.map_tus("sa.props.C18", "tu_check", use_cache=use_cache)
     pa = ck.py_atoms()
     n = 0
@@ -41,6 +41,8 @@ def run(tier="quick", seed=0, use_cache=True):
     res.floor("translation units", len(out), 22)
     res.count("CHECK-INVENTORY", n)
     ck.check_py_module(res)
+    from ..rules import checktables
+    checktables.check(res)
     res.samples = [{"c_atoms_OO": [a[0] for a in out["OO"]["atoms"]]},
                    {"python_atoms": [a[0] for a in pa]}]
     res.units = {"translation_units": len(out)}
